@@ -81,7 +81,19 @@ fn bind_list(context: &EvaluationContext, scopes: &mut ScopeStack, names_in_bind
 #[verifier::external_body]
 fn bind_range_index(context: &EvaluationContext, scopes: &mut ScopeStack, lhs: (&mut ListRef, &Option<Box<Expr>>, &Option<Box<Expr>>), lhs_loc: &(usize, usize), rhs_items: &[SourcedValue]) -> (r: Result<()>)
     ensures r matches Err(e) ==> located(e),
+            (r, final(scopes).world()) == sem_bind_range(old(scopes).world(), *lhs.1, *lhs.2, *lhs_loc, rhs_items@),
 { unimplemented!() }
+// D5: `s.iter().map(|c| value::new_str(vec![*c])).collect()` (iterator adapters): the bytes of s as one-byte strings, in order
+pub open spec fn str_items(s: Seq<u8>) -> Seq<SourcedValue> {
+    Seq::new(s.len(), |i: int| SourcedValue{v: Value::Str(vec_of(seq![s[i]])), source: None})
+}
+pub uninterp spec fn vec_of(s: Seq<u8>) -> Vec<u8>;
+#[verifier::external_body]
+pub fn str_chars(s: &Vec<u8>) -> (r: Vec<SourcedValue>)
+    ensures r@ == str_items(s@),
+{ unimplemented!() }
+// (unit V-range is about bind_range_index; here: WHAT it is called on)
+pub uninterp spec fn sem_bind_range(w: W, start: Option<Box<Expr>>, end: Option<Box<Expr>>, loc: Location, items: Seq<SourcedValue>) -> (Result<()>, W);
 
 pub open spec fn at(e: Error, loc: Location) -> bool {
     e matches Error::AtLoc{source, line, col} && line == loc.0 && col == loc.1
@@ -191,10 +203,18 @@ SPEC_NEXT = r"""
             else { match sem_expr(old(scopes).world(), *expr).0 {
                 Err(_) => r is Err,
                 Ok(base) => match base.v {
-                    Value::List(l) => !(rhs.v is List || rhs.v is Str) ==> r is Err && at(r->Err_0, lhs.1) && inner(r->Err_0) is RangeIndexAssignOnNonIndexable,
+                    Value::List(l) => {
+                        &&& (!(rhs.v is List || rhs.v is Str) ==> r is Err && at(r->Err_0, lhs.1) && inner(r->Err_0) is RangeIndexAssignOnNonIndexable)
+                        // a list source: the range assignment itself, with the bounds as written, on exactly the source's items
+                        &&& (rhs.v is List ==> (r, final(scopes).world())
+                                == sem_bind_range(sem_expr(old(scopes).world(), *expr).1, start, end, lhs.1, rhs.v->List_0.0.0@))
+                        // a string source: the same, on its bytes as one-byte strings, in order
+                        &&& (rhs.v is Str ==> (r, final(scopes).world())
+                                == sem_bind_range(sem_expr(old(scopes).world(), *expr).1, start, end, lhs.1, str_items(rhs.v->Str_0@)))
+                    },
                     _ => r is Err && at(r->Err_0, lhs.1) && inner(r->Err_0) is ValueNotRangeIndexAssignable,
                 },
-            } }), // [C11_C16:range_assignment_needs_a_list_target_and_a_list_or_string_source_and_no_operator]
+            } }), // [C11_C16:range_assignment_needs_a_list_target_and_a_list_or_string_source_and_no_operator_and_is_always_carried_out_with_the_bounds_as_written]
         r matches Err(e) ==> located(e), // [C17:binding_errors_are_located]
 """
 
@@ -236,6 +256,10 @@ def build(read):
     f1 = f1.replace("Value::List(items) => {", "Value::List(mut items) => {").replace("Value::Object(props) => {", "Value::Object(mut props) => {")
     b.edits.append("D5 (A-lock): bind_next: `mut` added to three pattern bindings (`Value::List(items)`, 2x `Value::Object(props)`) - "
                    "interior mutability through the lock becomes mutation of an exclusively owned local; its effect is NOT observable (no heap claim)")
+    f1 = extract.rewrite_regex_once(f1, r"(\w+)\s*\.iter\(\)\s*\.map\(\|(\w+)\|\s*value::new_str\(vec!\[\*\2\]\)\)\s*\.collect\(\)", r"str_chars(&\1)",
+                                    "bind_next: string source of a range assignment")
+    b.edits.append("D5: bind_next: `s.iter().map(|c| value::new_str(vec![*c])).collect()` -> str_chars(&s) (external: the bytes of s as one-byte strings, in order)")
+    b.dropped.append("bind_next: the iterator-adapter expression turning a string source into one-byte strings")
     f1 = parts.annotate_closure(
         f1, "new_loc_err", "source: Error", "Result<()>",
         "r == Err::<(), Error>(Error::AtLoc{source: Box::new(source), line: loc.0, col: loc.1})", "bind_next")
@@ -294,7 +318,8 @@ def build(read):
         "impl Clone for BindType { #[verifier::external_body] fn clone(&self) -> (r: Self) ensures r == *self { unimplemented!() } }\nimpl Copy for BindType {}",
         MODEL,
         "pub mod scope {\n    use super::*;\n// ---- verbatim from src/eval/scope.rs\n" + setf + "\n}",
-        parts.value_ctors(b, read, ["new_val_ref_with_no_source", "new_val_ref_with_source", "new_null", "new_bool", "new_int", "new_str", "new_list", "new_object"]),
+        ("" if "string_bytes" in MODEL else "pub uninterp spec fn string_bytes(s: Seq<char>) -> Seq<u8>;     // UTF-8 encoding (Verus has no str byte reasoning)\n") +
+        parts.value_ctors(b, read, ["new_val_ref_with_no_source", "new_val_ref_with_source", "new_null", "new_bool", "new_int", "new_str", "new_str_from_string", "new_list", "new_object", "new_func"], ref_eq=True),
         "// ---- verbatim macro from src/eval/bind.rs", mac,
         "// ---- functions under contract (verbatim bodies; contract text inserted at anchors)",
         f3, f1, f2,
@@ -330,3 +355,7 @@ def replays(failed):
            "a := {\"n\": 1, \"f\": fn() {\n    return this.n\n}}\ng := null\ng = a.f\nprint(g())\nxs := [null]\nxs[0] = a.f\nh := xs[0]\nprint(h())\n", _expect("1\n1\n"))
     yield ("an empty object pattern still needs an object source", "[a, {}] := [1, 2]\n", _expect(err_sub="only objects can be destructured into objects"))
     yield ("an empty list pattern still needs a list source", "{\"k\": []} := {\"k\": 1}\n", _expect(err_sub="1:"))
+    yield ("a range assignment is carried out (bounds checked, lengths compared) also when the source is the target list itself",
+           "xs := [1, 2, 3, 4]\nxs[0:4] = xs\nprint(xs == [1, 2, 3, 4])\nxs[1:3] = xs\nprint(\"unreachable\")\n", _expect(err_sub="cannot bind 4 item(s) to 2 index(s)"))
+    yield ("a string source of a range assignment arrives as its bytes, in order",
+           "xs := [1, 2, 3]\nxs[0:2] = \"ab\"\nprint(xs)\n", _expect("[\n    a,\n    b,\n    3,\n]\n"))
